@@ -983,6 +983,43 @@ func (c *Ctx) Subst(t *Term, m map[*Term]*Term) *Term {
 	return rec(t)
 }
 
+// Substituter applies one substitution to many terms with a shared cache.
+type Substituter struct {
+	c     *Ctx
+	m     map[*Term]*Term
+	cache map[*Term]*Term
+}
+
+func (c *Ctx) NewSubst(m map[*Term]*Term) *Substituter {
+	return &Substituter{c: c, m: m, cache: map[*Term]*Term{}}
+}
+
+func (s *Substituter) Apply(t *Term) *Term {
+	if r, ok := s.m[t]; ok {
+		return r
+	}
+	if len(t.Args) == 0 {
+		return t
+	}
+	if r, ok := s.cache[t]; ok {
+		return r
+	}
+	args := make([]*Term, len(t.Args))
+	ch := false
+	for i, a := range t.Args {
+		args[i] = s.Apply(a)
+		if args[i] != a {
+			ch = true
+		}
+	}
+	r := t
+	if ch {
+		r = s.c.Rebuild(t, args)
+	}
+	s.cache[t] = r
+	return r
+}
+
 // Rebuild re-applies the smart constructor of t.Op to new args.
 func (c *Ctx) Rebuild(t *Term, a []*Term) *Term {
 	switch t.Op {
